@@ -126,6 +126,12 @@ Definition token_at (e : expr) (slot : nat) : res token :=
 Definition no_strip (c : ctx) : ctx := mkCtx (cx_doc c) (cx_node c) (cx_list c) (cx_vars c) (fun _ _ => false).
 Definition cxa (aware : bool) (c : ctx) : ctx := if aware then c else no_strip c.
 
+(* XObject::num() without the execution context: XNumber answers its value, every other type
+   DoubleSupport::toDouble(str()) (XObject.cpp) — number("true") is NaN — with str() the context-free
+   string conversion *)
+Definition num_nocontext (c : ctx) (v : value) : dbl :=
+  match v with VNum x => x | _ => string_to_number (to_string (no_strip c) v) end.
+
 Definition arith_fn (op : arop) : dbl -> dbl -> dbl :=
   match op with AAdd => d_add | ASub => d_sub | AMul => d_mul | ADiv => d_div | AMod => d_mod end.
 Definition rnd_fn (r : rnd) : dbl -> dbl :=
@@ -181,7 +187,7 @@ Section Sem.
     | NOfBool b => do x <- sem_b b; Ok (xo_number_bool x)
     | NOfStr s => do x <- sem_s s; Ok (xo_number_str x)
     | NOfNodes aware l => do r <- sem_l l; Ok (xo_number_nodes (cxa aware c) r)
-    | NOfObj aware o => do v <- sem_o o; Ok (to_number (cxa aware c) v)
+    | NOfObj aware o => do v <- sem_o o; Ok (if aware then to_number c v else num_nocontext c v)
     | NTok slot => do t <- token_at e slot; Ok (tk_num t)
     | NCount l => do r <- sem_l l; Ok (d_of_nat (length r))
     | NPosition => Ok (d_of_nat (position_of c))
